@@ -200,6 +200,22 @@ def run_sync(spec: dict, history: List[list], opts: Optional[dict] = None) -> Ru
                         extra["can"] = interp.can(op[1])
                     elif op[0] == "snap":
                         extra["snap"] = interp.get_snapshot()
+                    elif op[0] == "restore":
+                        # crash/resume: snapshot, throw the interpreter away, restore into a fresh
+                        # interpreter over a freshly built machine definition
+                        snap_s = interp.get_snapshot()
+                        extra["snap"] = snap_s
+                        old = interp
+                        cfg2, logic2 = build(spec, rec, sleeper=(sched.sleep if sched else None))
+                        machine2 = create_machine(cfg2, logic=logic2)
+                        interp = SyncInterpreter.from_snapshot(snap_s, machine2)
+                        run.interp = interp
+                        rec.interp = interp
+                        if not opts.get("no_tap"):
+                            interp.use(Tap(rec))
+                            interp.subscribe(make_subscriber(rec))
+                            interp.on("*", make_emit_listener(rec))
+                        old.stop()
                     else:
                         raise ValueError(op)
                     if sched and op[0] != "advance":
@@ -346,6 +362,22 @@ def run_async(spec: dict, history: List[list], opts: Optional[dict] = None) -> R
                         extra["can"] = interp.can(op[1])
                     elif op[0] == "snap":
                         extra["snap"] = interp.get_snapshot()
+                    elif op[0] == "restore":
+                        snap_s = interp.get_snapshot()
+                        extra["snap"] = snap_s
+                        old = interp
+                        cfg2, logic2 = build(spec, rec, async_mode=True)
+                        machine2 = create_machine(cfg2, logic=logic2)
+                        interp = Interpreter.from_snapshot(snap_s, machine2)
+                        run.interp = interp
+                        rec.interp = interp
+                        holder["interp"] = interp
+                        if not opts.get("no_tap"):
+                            interp.use(Tap(rec))
+                            interp.subscribe(make_subscriber(rec))
+                            interp.on("*", make_emit_listener(rec))
+                        await old.stop()
+                        await interp.start()
                     else:
                         raise ValueError(op)
                     await _quiesce(interp, loop)
